@@ -2,7 +2,8 @@
 (* C05, code -> spec: laws between paired calls on the built-in look-up tables.  A      *)
 (* record holds two results for the same events as integers (micro-kPa, -1 = NaN) and   *)
 (* the law that relates them: "equal" (batch split, per-event vs global temperature,    *)
-(* joint geometric rescaling, repeated call) or "double" (viscosity or flow rate x 2).  *)
+(* joint geometric rescaling, repeated call, pixel size given vs. deformation reduced   *)
+(* by the published pixelation delta) or "double" (viscosity or flow rate x 2).         *)
 EXTENDS Integers, Sequences, TLC, Json, IOUtils
 Traces == JsonDeserialize(IOEnv.TRACE_FILE)
 VARIABLES tid, done
